@@ -1057,7 +1057,7 @@ func emitTranslated(p *pkgInfo) (out string, err error) {
 	t := &trans{p: p, ren: map[string]string{}, sigs: map[string]sig{}, psigs: map[string]psig{}}
 	knownStructs = p.structs
 	var b strings.Builder
-	b.WriteString("/- GENERATED by extract (translate.go) from /repo's current source: do not edit.\n   Go functions of the subset the translator understands, as Lean definitions; shifts and rotations\n   have Go's semantics (RapidModel/GoSem.lean). -/\nimport RapidModel.GoProg\nimport RapidModel.GoImp\nimport RapidModel.GoProgImp\nimport RapidModel.GoScript\nimport RapidModel.GoEngine\nimport RapidModel.GoBytes\nimport RapidModel.GoStream\n\nset_option linter.unusedVariables false\n\nnamespace Rapid.Translated\n\n")
+	b.WriteString("/- GENERATED by extract (translate.go) from /repo's current source: do not edit.\n   Go functions of the subset the translator understands, as Lean definitions; shifts and rotations\n   have Go's semantics (RapidModel/GoSem.lean). -/\nimport RapidModel.GoProg\nimport RapidModel.GoImp\nimport RapidModel.GoProgImp\nimport RapidModel.GoScript\nimport RapidModel.GoEngine\nimport RapidModel.GoBytes\nimport RapidModel.GoStream\nimport RapidModel.GoCheck\n\nset_option linter.unusedVariables false\n\nnamespace Rapid.Translated\n\n")
 	b.WriteString(t.function("bitmask64", "bitmask64"))
 	b.WriteString("\n")
 	b.WriteString(t.function("ufloatFracBits", "ufloatFracBits"))
@@ -1157,6 +1157,14 @@ func emitTranslated(p *pkgInfo) (out string, err error) {
 	emMode = true
 	b.WriteString(t.impFunctionMode("findBug", map[string]*isig{}, true, ""))
 	emMode = false
+	b.WriteString("\n")
+	b.WriteString("/-! ### engine.go: `checkFailFile` and `doCheck`, in `Go.CM` (loading a fail file, running one test case on a fresh `*T`, the generation loop and the shrinker are requests) -/\n\n")
+	emMode, ckMode = true, true
+	csigs := map[string]*isig{}
+	b.WriteString(t.impFunctionMode("checkFailFile", csigs, true, ""))
+	b.WriteString("\n")
+	b.WriteString(t.impFunctionMode("doCheck", csigs, true, ""))
+	emMode, ckMode = false, false
 	b.WriteString("\n")
 	b.WriteString("/-! ### engine.go: the bytes of a fuzz input as 64-bit words (`checkFuzz`) -/\n\n")
 	b.WriteString(t.impFragment("checkFuzz", "checkFuzz_words", func(i int, s ast.Stmt) bool {
